@@ -10,6 +10,8 @@ import (
 	"net/http/httptest"
 	"os"
 	"strings"
+	"sync"
+	"sync/atomic"
 	"testing"
 
 	"github.com/a-h/templ"
@@ -145,6 +147,9 @@ type resp struct {
 func do(r Req, sawErr *error) (out resp, err error) {
 	defer func() {
 		if x := recover(); x != nil {
+			if msg := fmt.Sprint(x); strings.HasPrefix(msg, "harness:") || strings.HasPrefix(msg, "httptest:") {
+				panic(x) // trouble of the harness's own plumbing: exit 2, never a verdict
+			}
 			err = fmt.Errorf("panic: %v", x)
 		}
 	}()
@@ -166,22 +171,46 @@ func do(r Req, sawErr *error) (out resp, err error) {
 	}
 	h := handler(r, sawErr)
 	if r.Real {
-		srv := httptest.NewServer(h)
-		defer srv.Close()
-		res, err := http.Get(srv.URL)
+		// one loopback server per process, with keep-alive connections: a server per request runs
+		// out of ephemeral ports in long runs
+		id := fmt.Sprint(realSeq.Add(1))
+		realHandlers.Store(id, h)
+		defer realHandlers.Delete(id)
+		res, err := http.Get(realServer().URL + "/" + id)
 		if err != nil {
-			return out, fmt.Errorf("harness: GET: %v", err)
+			panic("harness: GET: " + err.Error())
 		}
 		defer res.Body.Close()
 		b, err := io.ReadAll(res.Body)
 		if err != nil {
-			return out, fmt.Errorf("harness: read: %v", err)
+			panic("harness: read: " + err.Error())
 		}
 		return resp{res.StatusCode, res.Header.Get("Content-Type"), string(b)}, nil
 	}
 	w := httptest.NewRecorder()
 	h.ServeHTTP(w, httptest.NewRequest("GET", "/", nil))
 	return resp{w.Code, w.Header().Get("Content-Type"), w.Body.String()}, nil
+}
+
+var (
+	realOnce     sync.Once
+	realSrv      *httptest.Server
+	realHandlers sync.Map
+	realSeq      atomic.Int64
+)
+
+func realServer() *httptest.Server {
+	realOnce.Do(func() {
+		realSrv = httptest.NewServer(http.HandlerFunc(func(w http.ResponseWriter, r *http.Request) {
+			h, ok := realHandlers.Load(strings.TrimPrefix(r.URL.Path, "/"))
+			if !ok {
+				http.Error(w, "harness: no handler registered", http.StatusGone)
+				return
+			}
+			h.(http.Handler).ServeHTTP(w, r)
+		}))
+	})
+	return realSrv
 }
 
 func decide(c Case) error {
